@@ -110,6 +110,11 @@ def build_incon(t2incons, sub, nblk, nvar, flags):
                       # there (else the header is re-derived from the 9-decimal rounding of the
                       # timing record -- double rounding no writer can make stable)
                       'sumtim': float('%.6e' % gen_real(rng, False, False))}
+        if rng.random() < 0.4:
+            # the record is a dictionary: the order its keys were assigned in means nothing
+            keys = list(inc.timing)
+            rng.shuffle(keys)
+            inc.timing = dict((k, inc.timing[k]) for k in keys)
     return inc
 
 
@@ -241,6 +246,7 @@ def shipped(i, tier):
 
 
 class InconMachine(StoreMachine):
+    KEEP_AFTER_FAILED_OPEN = True
     PROP = 'C13'
     OPS = ('NEW', 'EDIT', 'W', 'R', 'CYCLE', 'FOREIGN', 'SHIPPED', 'CRASH')
 
